@@ -843,6 +843,60 @@ impl BackendMap {
     }
 }
 
+/// verif hook: a process-wide snapshot of every backend's eligibility and load
+/// state, published by the worker on every event-loop iteration
+/// (`HealthChecker::poll`), so the out-of-tree verification harness
+/// (`--cfg sozu_verif`) can read it from outside the worker thread. Never
+/// compiled into a normal build.
+#[cfg(sozu_verif)]
+#[derive(Clone, Debug)]
+pub struct VerifBackend {
+    pub cluster_id: String,
+    pub backend_id: String,
+    pub address: SocketAddr,
+    pub status: BackendStatus,
+    pub healthy: bool,
+    pub active_connections: usize,
+    pub active_requests: usize,
+    pub failures: usize,
+    pub tries: usize,
+    pub max_tries: usize,
+    pub is_down: bool,
+    pub can_open: bool,
+}
+
+#[cfg(sozu_verif)]
+pub static VERIF_BACKENDS: std::sync::Mutex<Vec<VerifBackend>> = std::sync::Mutex::new(Vec::new());
+
+#[cfg(sozu_verif)]
+impl BackendMap {
+    pub fn verif_publish(&self) {
+        let mut out = Vec::new();
+        for (cluster_id, list) in &self.backends {
+            for b in &list.backends {
+                let b = b.borrow();
+                out.push(VerifBackend {
+                    cluster_id: cluster_id.clone(),
+                    backend_id: b.backend_id.clone(),
+                    address: b.address,
+                    status: b.status.clone(),
+                    healthy: b.health.is_healthy(),
+                    active_connections: b.active_connections,
+                    active_requests: b.active_requests,
+                    failures: b.failures,
+                    tries: b.retry_policy.current_tries(),
+                    max_tries: b.retry_policy.max_tries(),
+                    is_down: b.retry_policy.is_down(),
+                    can_open: b.can_open(),
+                });
+            }
+        }
+        if let Ok(mut g) = VERIF_BACKENDS.lock() {
+            *g = out;
+        }
+    }
+}
+
 #[derive(Debug)]
 pub struct BackendList {
     pub backends: Vec<Rc<RefCell<Backend>>>,
